@@ -1,6 +1,6 @@
 (* Dispatcher of the extracted model: one S-expression in, one out. *)
 From Coq Require Import String.
-From HS Require Import Base.Prelude Model.Version Model.SortableDict Model.Grid.
+From HS Require Import Base.Prelude Model.Version Model.SortableDict Model.Grid Model.Qty.
 
 Definition run_command (c : sexp) : sexp :=
   match c with
@@ -15,6 +15,7 @@ Definition run_command (c : sexp) : sexp :=
         cmd_ver_matrix (flat_map (fun a => match a with SStr t => [t] | _ => [] end) args)
       else if str_eqb name (s_ "sd-run") then cmd_sd_run args
       else if str_eqb name (s_ "grid-run") then cmd_grid_run args
+      else if str_eqb name (s_ "qty-table") then cmd_qty_table args
       else bad_request
   | _ => bad_request
   end.
